@@ -2,11 +2,11 @@ SPECIFICATION Spec
 CONSTANTS
   Acc = {"a1", "a2"}
   Null = "0"
-  Kinds <- K3
+  Kinds <- K2
   BatchSize = 3
   MaxBlocks = 3
-  MaxXfers = 5
-  MaxPerBlock = 3
+  MaxXfers = 4
+  MaxPerBlock = 2
   Replica <- R1
   DiskBackend <- R1
   GCReplica <- None
